@@ -1,5 +1,6 @@
 (** C15 — lemmas (the statements of the property theorems are in Props.v) *)
 From Coq Require Import NArith List Bool Arith Lia Sorted Permutation.
+From OBI.C15.Gen Require Import Tables.
 From OBI.C15 Require Import Model.
 Import ListNotations.
 
@@ -143,13 +144,21 @@ Proof.
     pose proof (miss_triangle (kmers4 u) (kmers4 t) (kmers4 s)). lia.
 Qed.
 
+(** facts about the REGENERATED table, re-proved on every run *)
+Lemma base_code_tab_length : length base_code_tab = 32.
+Proof. vm_compute. reflexivity. Qed.
+Lemma base_code_tab_le3 : forallb (fun c => (c <=? 3)%N) base_code_tab = true.
+Proof. vm_compute. reflexivity. Qed.
+Lemma base_code_le3 : forall x, (base_code x <= 3)%N.
+Proof.
+  intros x. unfold base_code.
+  destruct (nth_in_or_default (N.to_nat (N.land x 31)) base_code_tab 0%N) as [H|H]; [|rewrite H; lia].
+  pose proof base_code_tab_le3 as F. rewrite forallb_forall in F. apply F in H. now apply N.leb_le.
+Qed.
 Lemma code4_lt : forall a b c d, (code4 a b c d < 256)%N.
 Proof.
   intros. unfold code4.
-  assert (B : forall x, (base_code x <= 3)%N).
-  { intros x. unfold base_code. destruct (N.land x 31) as [|p]; [lia|].
-    do 5 (destruct p as [p|p|]; try lia). }
-  pose proof (B a); pose proof (B b); pose proof (B c); pose proof (B d). lia.
+  pose proof (base_code_le3 a); pose proof (base_code_le3 b); pose proof (base_code_le3 c); pose proof (base_code_le3 d). lia.
 Qed.
 Lemma kmers4_codes : forall s, Forall (fun x => (x < 256)%N) (kmers4 s).
 Proof.
@@ -227,7 +236,7 @@ Proof.
 Qed.
 Lemma fstep_far : forall thr qlen c st m, s_maxe st = Some m -> m < c_d c -> fstep thr qlen c st = st.
 Proof.
-  intros thr qlen c st m E H. unfold fstep. rewrite E. unfold kern.
+  intros thr qlen c st m E H. unfold fstep, fstep_core. rewrite E. unfold kern.
   destruct (Nat.leb_spec m 1).
   - destruct (Nat.leb_spec (c_d c) 1); [|reflexivity].
     destruct (Nat.ltb_spec (c_d c) m); [lia|]. rewrite E. destruct (Nat.eqb_spec (c_d c) m); [lia|reflexivity].
@@ -240,14 +249,14 @@ Proof.
   destruct (minl pre) as [m|] eqn:E.
   - destruct (lt_eq_lt_dec (c_d c) m) as [[L|L]|L].
     + (* strictly better *)
-      unfold fstep. rewrite Hm, kern_some_le by lia.
+      unfold fstep, fstep_core. rewrite Hm, kern_some_le by lia.
       destruct (Nat.ltb_spec (c_d c) m); [|lia]. cbn [s_maxe s_bests s_wordmin s_blcs s_bali s_bmatch].
       rewrite Nat.eqb_refl. cbn [s_maxe s_bests]. rewrite Nat.min_r by lia. split; [reflexivity|].
       rewrite filter_app, map_app. cbn [filter]. rewrite Nat.eqb_refl.
       rewrite filter_none; [reflexivity|].
       intros c' Hc'. pose proof (minl_lower _ _ E c' Hc'). apply Nat.eqb_neq. lia.
     + (* tie *)
-      unfold fstep. rewrite Hm, kern_some_le by lia.
+      unfold fstep, fstep_core. rewrite Hm, kern_some_le by lia.
       destruct (Nat.ltb_spec (c_d c) m); [lia|]. rewrite Hm.
       destruct (Nat.eqb_spec (c_d c) m); [|lia]. cbn [s_maxe s_bests]. rewrite Nat.min_l by lia.
       split; [reflexivity|]. rewrite Hb, filter_app, map_app. cbn [filter].
@@ -256,7 +265,7 @@ Proof.
       rewrite (fstep_far thr qlen c st m Hm L). rewrite Nat.min_l by lia. split; [exact Hm|].
       rewrite Hb, filter_app, map_app. cbn [filter].
       destruct (Nat.eqb_spec (c_d c) m); [lia|]. now rewrite app_nil_r.
-  - apply minl_none in E. subst pre. unfold fstep. rewrite Hm. cbn [kern].
+  - apply minl_none in E. subst pre. unfold fstep, fstep_core. rewrite Hm. cbn [kern].
     cbn [s_maxe s_bests s_wordmin s_blcs s_bali s_bmatch]. rewrite Nat.eqb_refl. cbn [s_maxe s_bests].
     split; [reflexivity|]. cbn [app filter map]. now rewrite Nat.eqb_refl.
 Qed.
@@ -270,7 +279,7 @@ Qed.
 
 Lemma fstep_wm : forall qlen c st, wm_ok qlen st -> wm_ok qlen (fstep thr_fixed qlen c st).
 Proof.
-  intros qlen c st H. unfold fstep. destruct (kern (s_maxe st) (c_d c)) as [score|]; [|exact H].
+  intros qlen c st H. unfold fstep, fstep_core. destruct (kern (s_maxe st) (c_d c)) as [score|]; [|exact H].
   set (better := match s_maxe st with None => true | Some m => score <? m end).
   assert (W : wm_ok qlen (if better then mkst (Some score) (thr_fixed qlen (c_len c) score) [] (c_lcs c) (c_ali c) (c_idx c) else st)).
   { destruct better; [|exact H]. unfold wm_ok, thr_fixed. reflexivity. }
@@ -526,18 +535,18 @@ Section Kernel.
   Definition kdist (q r : list N) : nat := snd (kernel q r) - fst (kernel q r).
   Hypothesis kernel_edits : forall q r, acgt_only q -> acgt_only r -> edits (kdist q r) q r.
 
-  Theorem search_lossless_seq : forall q refs order,
+  Theorem search_lossless_seq_x : forall q refs order,
     acgt_only q -> Forall acgt_only refs -> refs <> [] ->
     Permutation order (seq 0 (length refs)) ->
-    by_decreasing_cw (cands_of q refs (map (kernel q) refs) order) ->
-    let st := find_closests thr_fixed (length q) (cands_of q refs (map (kernel q) refs) order) in
+    by_decreasing_cw (cands_of_with common4 q refs (map (kernel q) refs) order) ->
+    let st := find_closests thr_fixed (length q) (cands_of_with common4 q refs (map (kernel q) refs) order) in
     exists m, s_maxe st = Some m /\
       (forall i, i < length refs -> m <= kdist q (nth i refs [])) /\
       (forall i, In i (s_bests st) <-> i < length refs /\ kdist q (nth i refs []) = m) /\
       s_bests st <> [].
   Proof.
     intros q refs order Hq Hr NE P S st.
-    set (cs := cands_of q refs (map (kernel q) refs) order) in *.
+    set (cs := cands_of_with common4 q refs (map (kernel q) refs) order) in *.
     assert (Hord : forall i, In i order <-> i < length refs).
     { intros i. split; intros H.
       - apply (Permutation_in _ P) in H. apply in_seq in H. lia.
@@ -545,7 +554,7 @@ Section Kernel.
     assert (Hc : forall c, In c cs <-> exists i, i < length refs /\
               c = mkcand i (common4 q (nth i refs [])) (length (nth i refs []))
                          (fst (kernel q (nth i refs []))) (snd (kernel q (nth i refs [])))).
-    { intros c. unfold cs, cands_of. rewrite in_map_iff. split.
+    { intros c. unfold cs, cands_of_with. rewrite in_map_iff. split.
       - intros [i [E Hi]]. apply Hord in Hi. exists i. split; [exact Hi|].
         rewrite (nth_map_lt _ _ (kernel q) refs i [] (0, 0) Hi) in E. now symmetry.
       - intros [i [Hi E]]. exists i. split; [|now apply Hord].
@@ -558,7 +567,7 @@ Section Kernel.
     { destruct refs as [|r0 refs']; [contradiction|].
       assert (In 0 order) by (apply Hord; cbn; lia).
       intros E. assert (In (nth 0 cs (mkcand 0 0 0 0 0)) cs) as Hn.
-      { apply nth_In. unfold cs, cands_of. rewrite map_length. destruct order; [contradiction|cbn; lia]. }
+      { apply nth_In. unfold cs, cands_of_with. rewrite map_length. destruct order; [contradiction|cbn; lia]. }
       rewrite E in Hn. destruct Hn. }
     destruct (search_lossless (length q) cs NEc S Q) as [m [Hm [Hlow [Hatt Hb]]]].
     fold st in Hm, Hb. exists m. split; [exact Hm|]. split; [|split].
@@ -584,7 +593,7 @@ End Kernel.
 (** obitag2.FindClosests: lossless as long as the scan cap is not reached *)
 Lemma search2_upto_1001 : forall thr qlen cs, length cs <= 1001 ->
   find_closests2 thr qlen cs = find_closests thr qlen cs.
-Proof. intros. unfold find_closests2. now rewrite firstn_all2. Qed.
+Proof. intros. unfold find_closests2, find_closests_cap. now rewrite firstn_all2. Qed.
 
 (** boolean check of the order, for witnesses *)
 Fixpoint sortedb (cs : list cand) : bool :=
@@ -652,6 +661,23 @@ Proof.
     + destruct (k1 <? k0); [injection H as <- <-; left; now left|now right].
     + injection H as <- <-. left. now left.
   - apply IH in H. destruct H as [H|H]; [left; now right|now right].
+Qed.
+Lemma smallest_in : forall idx acc k t, smallest idx acc = Some (k, t) -> In (k, t) idx \/ acc = Some (k, t).
+Proof.
+  induction idx as [|[k0 t0] r IH]; intros acc k t H; [now right|].
+  cbn [smallest] in H. apply IH in H. destruct H as [H|H]; [left; now right|].
+  destruct acc as [[k1 t1]|].
+  - destruct (k0 <? k1); [injection H as <- <-; left; now left|now right].
+  - injection H as <- <-. left. now left.
+Qed.
+Lemma lookup_id_in : forall idx d k t, lookup_id idx d = Some (k, t) -> In (k, t) idx.
+Proof.
+  intros idx d k t H. unfold lookup_id in H.
+  destruct (lookup idx d None) as [[k1 t1]|] eqn:E.
+  - injection H as <- <-. apply lookup_in in E. destruct E as [E|E]; [exact E|discriminate].
+  - destruct (smallest idx None) as [[k1 t1]|] eqn:E2; [|discriminate].
+    destruct (k1 <=? 1000); [|discriminate]. injection H as <- <-.
+    apply smallest_in in E2. destruct E2 as [E2|E2]; [exact E2|discriminate].
 Qed.
 Lemma all_some_in : forall (A B : Type) (f : A -> option B) l ys, all_some (map f l) = Some ys ->
   forall x, In x l -> exists y, f x = Some y /\ In y ys.
@@ -731,8 +757,8 @@ Section LCA.
     destruct (s_bali st <=? 2 * s_blcs st); [|injection H as <-; apply Root].
     destruct (all_some _) as [ts|] eqn:E; [|discriminate].
     destruct (all_some_in _ _ _ _ _ E b Hb) as [y [Ey Hy]].
-    destruct (lookup (indices b) d None) as [[k a]|] eqn:El; [|discriminate]. cbn in Ey. injection Ey as <-.
-    apply lookup_in in El. destruct El as [El|El]; [|discriminate].
+    destruct (lookup_id (indices b) d) as [[k a]|] eqn:El; [|discriminate]. cbn in Ey. injection Ey as <-.
+    apply lookup_id_in in El.
     destruct (fold_lca_anc _ _ _ H) as [_ B]. eapply anc_trans; [apply B; exact Hy|]. eapply Hidx; eassumption.
   Qed.
 End LCA.
@@ -900,11 +926,6 @@ End LCA2.
 
 
 (** * Encode4mer's rolling byte = the window codes *)
-Lemma base_code_le3 : forall x, (base_code x <= 3)%N.
-Proof.
-  intros x. unfold base_code. destruct (N.land x 31) as [|p]; [lia|].
-  do 5 (destruct p as [p|p|]; try lia).
-Qed.
 Lemma roll_step : forall a b c d x, ((code4 a b c d * 4) mod 256 + base_code x)%N = code4 b c d x.
 Proof.
   intros. unfold code4.
@@ -970,7 +991,7 @@ Qed.
 
 (** * end to end: the taxon assigned by Identify is an ancestor-or-self of the taxon of EVERY
       reference at minimal distance from the query *)
-Theorem assignment_sound :
+Theorem assignment_sound_x :
   forall kernel : list N -> list N -> nat * nat,
   (forall q r, acgt_only q -> acgt_only r -> edits (kdist kernel q r) q r) ->
   forall (anc : nat -> nat -> Prop) (lca : nat -> nat -> nat),
@@ -979,18 +1000,18 @@ Theorem assignment_sound :
   forall q refs order (tax : nat -> nat) (indices : nat -> list (nat * nat)) t,
     acgt_only q -> Forall acgt_only refs -> refs <> [] ->
     Permutation order (seq 0 (length refs)) ->
-    by_decreasing_cw (cands_of q refs (map (kernel q) refs) order) ->
+    by_decreasing_cw (cands_of_with common4 q refs (map (kernel q) refs) order) ->
     (forall b, b < length refs -> forall d a, In (d, a) (indices b) -> anc a (tax b)) ->
     identify (fun a b => Some (lca a b)) indices
-             (find_closests thr_fixed (length q) (cands_of q refs (map (kernel q) refs) order)) = Some t ->
+             (find_closests thr_fixed (length q) (cands_of_with common4 q refs (map (kernel q) refs) order)) = Some t ->
     forall i, i < length refs ->
       (forall j, j < length refs -> kdist kernel q (nth i refs []) <= kdist kernel q (nth j refs [])) ->
       anc t (tax i).
 Proof.
   intros kernel KE anc lca Ar At Ag Root q refs order tax indices t Hq Hr NE P S Hidx Hid i Hi Hmin.
-  destruct (search_lossless_seq kernel KE q refs order Hq Hr NE P S) as [m [Hm [Hlow [Hb Hne]]]].
+  destruct (search_lossless_seq_x kernel KE q refs order Hq Hr NE P S) as [m [Hm [Hlow [Hb Hne]]]].
   cbv zeta in Hb, Hlow, Hm, Hne.
-  set (st := find_closests thr_fixed (length q) (cands_of q refs (map (kernel q) refs) order)) in *.
+  set (st := find_closests thr_fixed (length q) (cands_of_with common4 q refs (map (kernel q) refs) order)) in *.
   assert (Hbest : In i (s_bests st)).
   { apply Hb. split; [exact Hi|].
     (* m is attained by some best j; the distance of i is <= that of j = m, and >= m *)
@@ -1023,11 +1044,11 @@ Proof.
   rewrite Forall_forall in *. intros x Hx. apply H2. now apply in_map.
 Qed.
 
-Theorem valid_order_sound : forall q refs qd order,
-  valid_order order (map (fun r => common4 q r) refs) = true ->
-  Permutation order (seq 0 (length refs)) /\ by_decreasing_cw (cands_of q refs qd order).
+Theorem valid_order_sound : forall (cm : list N -> list N -> nat) q refs qd order,
+  valid_order order (map (fun r => cm q r) refs) = true ->
+  Permutation order (seq 0 (length refs)) /\ by_decreasing_cw (cands_of_with cm q refs qd order).
 Proof.
-  intros q refs qd order H. unfold valid_order in H. rewrite map_length in H.
+  intros cm q refs qd order H. unfold valid_order in H. rewrite map_length in H.
   apply andb_prop in H. destruct H as [H Hs]. apply andb_prop in H. destruct H as [H Hc].
   apply andb_prop in H. destruct H as [Hl Hb].
   apply Nat.eqb_eq in Hl. rewrite forallb_forall in Hb, Hc.
@@ -1043,19 +1064,19 @@ Proof.
       specialize (ND x). apply (count_occ_In Nat.eq_dec) in Hx. lia. }
   split; [exact P|].
   apply sorted_desc_sound in Hs. apply StronglySorted_map in Hs.
-  unfold by_decreasing_cw, cands_of. 
+  unfold by_decreasing_cw, cands_of_with. 
   assert (G : forall l, (forall i, In i l -> i < length refs) ->
-              StronglySorted (fun a b => nth b (map (fun r => common4 q r) refs) 0 <= nth a (map (fun r => common4 q r) refs) 0) l ->
+              StronglySorted (fun a b => nth b (map (fun r => cm q r) refs) 0 <= nth a (map (fun r => cm q r) refs) 0) l ->
               StronglySorted (fun a b => c_cw b <= c_cw a)
                 (map (fun i => let r := nth i refs [] in
-                       mkcand i (common4 q r) (length r) (fst (nth i qd (0, 0))) (snd (nth i qd (0, 0)))) l)).
+                       mkcand i (cm q r) (length r) (fst (nth i qd (0, 0))) (snd (nth i qd (0, 0)))) l)).
   { induction l as [|a r IH]; intros Hlt HS; [constructor|].
     apply StronglySorted_inv in HS. destruct HS as [S1 S2]. cbn [map]. constructor.
     - apply IH; [intros i Hi; apply Hlt; now right|exact S1].
     - rewrite Forall_forall in *. intros c Hc'. apply in_map_iff in Hc'. destruct Hc' as [i [<- Hi]].
       cbn [c_cw]. specialize (S2 i Hi).
-      rewrite (nth_map_lt _ _ (fun r => common4 q r) refs i [] 0) in S2 by (apply Hlt; now right).
-      rewrite (nth_map_lt _ _ (fun r => common4 q r) refs a [] 0) in S2 by (apply Hlt; now left).
+      rewrite (nth_map_lt _ _ (fun r => cm q r) refs i [] 0) in S2 by (apply Hlt; now right).
+      rewrite (nth_map_lt _ _ (fun r => cm q r) refs a [] 0) in S2 by (apply Hlt; now left).
       exact S2. }
   apply G; [|exact Hs]. intros i Hi. apply Hb, Nat.ltb_lt in Hi. exact Hi.
 Qed.
@@ -1069,3 +1090,492 @@ Theorem threshold_sound :
 Proof.
   intros kernel KE q r Hq Hr. pose proof (qgram_bound _ _ _ (KE q r Hq Hr)). unfold thr_fixed. lia.
 Qed.
+
+(** * round 2 — the uint16 cells of Table4mer *)
+Lemma cell_modulus_val : cell_modulus = 65536%N.
+Proof. vm_compute. reflexivity. Qed.
+Lemma table_cells_val : table_cells = 256%N.
+Proof. vm_compute. reflexivity. Qed.
+Lemma countN_count : forall k l, countN k l = N.of_nat (count k l).
+Proof.
+  induction l as [|x r IH]; [reflexivity|]. cbn [countN count].
+  destruct (N.eqb x k); rewrite IH; [now rewrite Nat2N.inj_succ|reflexivity].
+Qed.
+Lemma count_le_length : forall k l, count k l <= length l.
+Proof. induction l as [|x r IH]; [apply le_n|]. cbn [count length]. destruct (N.eqb x k); lia. Qed.
+Lemma sumkN_sumk : forall f g n, (forall k, f k = N.of_nat (g k)) -> sumkN f n = N.of_nat (sumk g n).
+Proof.
+  intros f g n H. induction n as [|n IH]; [reflexivity|]. cbn [sumkN sumk]. rewrite IH, H. lia.
+Qed.
+(** no 4-mer occurs 2^16 times or more: the cells hold the exact counts *)
+Definition cells_exact (s : list N) : Prop := forall k, (countN k (kmers4 s) < cell_modulus)%N.
+Lemma commonw_exact : forall l1 l2,
+  (forall k, (countN k l1 < cell_modulus)%N) -> (forall k, (countN k l2 < cell_modulus)%N) ->
+  commonw l1 l2 = common l1 l2.
+Proof.
+  intros l1 l2 H1 H2. unfold commonw, common.
+  rewrite (sumkN_sumk _ (fun k => Nat.min (count k l1) (count k l2))); [apply Nat2N.id|].
+  intros k. unfold cell. rewrite !N.mod_small by auto. rewrite !countN_count. now rewrite Nat2N.inj_min.
+Qed.
+Lemma common4w_exact : forall s t, cells_exact s -> cells_exact t -> common4w s t = common4 s t.
+Proof. intros s t Hs Ht. apply commonw_exact; assumption. Qed.
+Lemma short_cells_exact : forall s, (N.of_nat (length s) < 65539)%N -> cells_exact s.
+Proof.
+  intros s H k. rewrite cell_modulus_val, countN_count.
+  pose proof (count_le_length k (kmers4 s)) as L. rewrite kmers4_length in L. lia.
+Qed.
+Lemma cells_exact_nil : cells_exact [].
+Proof. apply short_cells_exact. cbn. lia. Qed.
+
+Theorem qgram_bound_wrapped : forall d s t, edits d s t -> cells_exact s -> cells_exact t ->
+  Nat.max (length s) (length t) - 3 - 4 * d <= common4w s t.
+Proof. intros d s t E Hs Ht. rewrite common4w_exact by assumption. now apply qgram_bound. Qed.
+
+(** beyond the guard: 65538 a / 65539 a differ by one insertion and share NO 4-mer by the wrapped cells *)
+Definition hq : list N := repeat 97%N (N.to_nat 65538).
+Definition hr : list N := 97%N :: hq.
+Lemma hq_length : length hq = N.to_nat 65538.
+Proof. apply repeat_length. Qed.
+Lemma hq_hr_common : common4w hq hr = 0.
+Proof. vm_compute. reflexivity. Qed.
+Lemma qgram_wrapped_refuted :
+  edits 1 hq hr /\ cells_exact hq /\ ~ cells_exact hr /\ common4w hq hr = 0 /\
+  ~ (Nat.max (length hq) (length hr) - 3 - 4 * 1 <= common4w hq hr).
+Proof.
+  pose proof hq_hr_common as C0.
+  split; [apply (ed_S 0 hq hr hr); [exact (e_ins [] 97%N hq)|constructor]|].
+  split; [apply short_cells_exact; rewrite hq_length, N2Nat.id; lia|].
+  split.
+  - intros H. specialize (H 0%N). apply N.ltb_lt in H. revert H. vm_compute. discriminate.
+  - split; [exact C0|]. rewrite C0. unfold hr. cbn [length]. rewrite hq_length. lia.
+Qed.
+
+(** consequence for the scan: a candidate whose (wrapped) shared count is below the threshold set by
+    the first candidate is never looked at, whatever its distance *)
+Lemma fscan_prune2 : forall qlen c1 c2 rest, c_cw c2 < qlen - 3 - 4 * c_d c1 ->
+  find_closests thr_fixed qlen (c1 :: c2 :: rest) = find_closests thr_fixed qlen [c1].
+Proof.
+  intros qlen c1 c2 rest H. unfold find_closests, finit. cbn [fscan s_wordmin].
+  replace (c_cw c1 <? 0) with false by (symmetry; apply Nat.ltb_ge; lia).
+  set (st1 := fstep thr_fixed qlen c1 _).
+  assert (W : s_wordmin st1 = qlen - 3 - 4 * c_d c1).
+  { unfold st1, fstep, fstep_core. cbn [s_maxe kern]. cbn [s_maxe s_wordmin s_bests s_blcs s_bali s_bmatch].
+    rewrite Nat.eqb_refl. cbn [s_wordmin]. reflexivity. }
+  rewrite W. apply Nat.ltb_lt in H. rewrite H. reflexivity.
+Qed.
+Lemma find_closests_single : forall qlen c, 
+  s_maxe (find_closests thr_fixed qlen [c]) = Some (c_d c) /\ s_bests (find_closests thr_fixed qlen [c]) = [c_idx c].
+Proof.
+  intros qlen c. unfold find_closests, finit. cbn [fscan s_wordmin].
+  replace (c_cw c <? 0) with false by (symmetry; apply Nat.ltb_ge; lia).
+  unfold fstep, fstep_core. cbn [s_maxe kern]. cbn [s_maxe s_wordmin s_bests s_blcs s_bali s_bmatch].
+  rewrite Nat.eqb_refl. cbn [s_maxe s_bests app]. split; reflexivity.
+Qed.
+Definition hr2 : list N := 99%N :: repeat 97%N (N.to_nat 65536) ++ [99%N].
+Lemma search_wrapped_refuted : forall kernel : list N -> list N -> nat * nat,
+  kdist kernel hq hr = 1 -> kdist kernel hq hr2 = 2 ->
+  let cs := cands_of hq [hr; hr2] (map (kernel hq) [hr; hr2]) [1; 0] in
+  by_decreasing_cw cs /\
+  s_maxe (find_closests thr_fixed (length hq) cs) = Some 2 /\ s_bests (find_closests thr_fixed (length hq) cs) = [1].
+Proof.
+  intros kernel K1 K2 cs.
+  pose proof hq_hr_common as C0.
+  unfold cs, cands_of, cands_of_with. cbn [map nth fst snd].
+  split.
+  - constructor; [constructor; [constructor|constructor]|]. constructor; [|constructor]. cbn [c_cw]. rewrite C0. lia.
+  - rewrite fscan_prune2.
+    + destruct (find_closests_single (length hq)
+        (mkcand 1 (common4w hq hr2) (length hr2) (fst (kernel hq hr2)) (snd (kernel hq hr2)))) as [A B].
+      rewrite A, B. unfold c_d. cbn [c_ali c_lcs c_idx]. unfold kdist in K2. rewrite K2. split; reflexivity.
+    + cbn [c_cw]. rewrite C0. unfold c_d. cbn [c_ali c_lcs]. unfold kdist in K2. rewrite K2.
+      rewrite hq_length. lia.
+Qed.
+
+(** * round 2 — obitag2.FindClosests: the cap, sharp statement *)
+Lemma StronglySorted_app_l : forall (A : Type) (R : A -> A -> Prop) l1 l2,
+  StronglySorted R (l1 ++ l2) -> StronglySorted R l1.
+Proof.
+  induction l1 as [|a r IH]; intros l2 H; [constructor|].
+  rewrite <- app_comm_cons in H. apply StronglySorted_inv in H. destruct H as [H1 H2].
+  constructor; [now apply (IH l2)|]. rewrite Forall_forall in *. intros x Hx. apply H2. apply in_or_app. now left.
+Qed.
+Lemma filter_nil_iff : forall (cs : list cand) f, filter f cs = [] <-> (forall c, In c cs -> f c = false).
+Proof.
+  intros cs f. split; [|apply filter_none].
+  intros H c Hc. destruct (f c) eqn:E; [|reflexivity].
+  assert (In c (filter f cs)) by (apply filter_In; now split). rewrite H in *. contradiction.
+Qed.
+
+Theorem search_cap_sharp : forall n qlen cs, 0 < n -> cs <> [] -> by_decreasing_cw cs -> qgram_ok qlen cs ->
+  forall m, (forall c, In c cs -> m <= c_d c) -> (exists c, In c cs /\ c_d c = m) ->
+  (s_maxe (find_closests_cap n thr_fixed qlen cs) = Some m /\
+   s_bests (find_closests_cap n thr_fixed qlen cs) = map c_idx (filter (fun c => c_d c =? m) cs))
+  <-> (forall c, In c (skipn n cs) -> c_d c <> m).
+Proof.
+  intros n qlen cs Hn NE S Q m Hlow [cm [Hcm Hdm]]. unfold find_closests_cap.
+  pose proof (firstn_skipn n cs) as Split.
+  set (A := firstn n cs) in *. set (B := skipn n cs) in *.
+  assert (NEA : A <> []).
+  { unfold A. destruct cs as [|c0 r]; [contradiction|]. destruct n as [|n']; [lia|]. discriminate. }
+  assert (SA : by_decreasing_cw A) by (unfold by_decreasing_cw in *; rewrite <- Split in S; now apply StronglySorted_app_l in S).
+  assert (InA : forall c, In c A -> In c cs) by (intros c Hc; rewrite <- Split; apply in_or_app; now left).
+  assert (InB : forall c, In c B -> In c cs) by (intros c Hc; rewrite <- Split; apply in_or_app; now right).
+  assert (QA : qgram_ok qlen A) by (intros c Hc; apply Q; now apply InA).
+  destruct (search_lossless qlen A NEA SA QA) as [m' [Hm' [Hlow' [[ca [Hca Hda]] Hb']]]].
+  assert (F : filter (fun c => c_d c =? m) cs = filter (fun c => c_d c =? m) A ++ filter (fun c => c_d c =? m) B)
+    by (rewrite <- filter_app; now rewrite Split).
+  rewrite Hm', Hb', F, map_app.
+  split.
+  - intros [Em Eb]. injection Em as ->.
+    assert (L : length (map c_idx (filter (fun c => c_d c =? m) B)) = 0).
+    { apply (f_equal (@length nat)) in Eb. rewrite app_length in Eb. lia. }
+    rewrite map_length in L. apply length_zero_iff_nil in L.
+    intros c Hc E. pose proof (proj1 (filter_nil_iff B _) L c Hc) as Fc. apply Nat.eqb_neq in Fc. contradiction.
+  - intros HB.
+    assert (Hin : In cm A).
+    { rewrite <- Split in Hcm. apply in_app_or in Hcm. destruct Hcm as [H|H]; [exact H|]. exfalso. exact (HB cm H Hdm). }
+    assert (m' = m).
+    { pose proof (Hlow' cm Hin). pose proof (Hlow ca (InA ca Hca)). lia. }
+    rewrite H. split; [reflexivity|].
+    rewrite (filter_none B); [now rewrite app_nil_r|].
+    intros c Hc. apply Nat.eqb_neq. now apply HB.
+Qed.
+
+(** * round 2 — IndexSequence always records distance 0; the loops of Identify *)
+Lemma index_fused_zero : forall cs rest old mini c, In c cs -> i_d c = 0 -> In (i_lca c) rest -> 0 < old ->
+  (forall m, mini = Some m -> 0 < m) -> exists a, In (0, a) (index_fused old rest cs mini).
+Proof.
+  intros cs. induction rest as [|a0 r IH]; intros old mini c Hc Hd Hl Ho Hm; [destruct Hl|].
+  cbn [index_fused]. destruct (iall a0 cs mini) as [d'|] eqn:EA.
+  - destruct (Nat.eq_dec d' 0) as [->|Nz].
+    + destruct (Nat.ltb_spec 0 old); [|lia]. exists a0. now left.
+    + assert (Hl' : In (i_lca c) r).
+      { destruct Hl as [E|Hl]; [|exact Hl]. destruct (iall_lower _ _ _ _ EA) as [_ L2].
+        specialize (L2 c Hc (eq_sym E)). lia. }
+      destruct (d' <? old).
+      * destruct (IH d' (Some d') c Hc Hd Hl') as [a Ha]; [lia|intros m [= <-]; lia|]. exists a. now right.
+      * apply (IH old (Some d') c Hc Hd Hl' Ho). intros m [= <-]. lia.
+  - destruct (iall_none _ _ _ EA) as [-> N].
+    assert (Hl' : In (i_lca c) r).
+    { destruct Hl as [E|Hl]; [|exact Hl]. exfalso. exact (N c Hc (eq_sym E)). }
+    apply (IH old None c Hc Hd Hl' Ho). intros m; discriminate.
+Qed.
+Theorem index_ref_zero : forall slen pseq cs, iby_decreasing_cw cs -> iqgram_ok slen cs -> 0 < slen ->
+  (exists c, In c cs /\ i_d c = 0 /\ In (i_lca c) pseq) ->
+  exists a, In (0, a) (index_ref thr_fixed slen pseq cs).
+Proof.
+  intros slen pseq cs S Q Hs [c [Hc [Hd Hl]]]. unfold index_ref.
+  rewrite (build_index_fused slen cs S Q) by (intros _; reflexivity).
+  apply (index_fused_zero cs pseq slen None c Hc Hd Hl Hs). intros m; discriminate.
+Qed.
+
+Lemma lookup_acc_some : forall idx e x, exists y, lookup idx e (Some x) = Some y.
+Proof.
+  induction idx as [|[k t] r IH]; intros e [k0 t0]; [now exists (k0, t0)|].
+  cbn [lookup]. destruct (k <=? e); [|apply IH]. destruct (k0 <? k); apply IH.
+Qed.
+Lemma lookup_some : forall idx e acc, (exists k t, In (k, t) idx /\ k <= e) -> exists y, lookup idx e acc = Some y.
+Proof.
+  induction idx as [|[k0 t0] r IH]; intros e acc [k [t [Hin Hk]]]; [destruct Hin|].
+  cbn [lookup]. destruct Hin as [E|Hin].
+  - injection E as -> ->. destruct (Nat.leb_spec k e); [|lia].
+    destruct acc as [[k1 t1]|]; [destruct (k1 <? k)|]; apply lookup_acc_some.
+  - destruct (k0 <=? e); apply IH; exists k, t; now split.
+Qed.
+(** every recorded distance is below the reference length: beyond it the lookup no longer moves *)
+Lemma lookup_saturate : forall idx s e e' acc, (forall k t, In (k, t) idx -> k < s) -> s <= S e -> s <= S e' ->
+  lookup idx e acc = lookup idx e' acc.
+Proof.
+  induction idx as [|[k t] r IH]; intros s e e' acc H He He'; [reflexivity|].
+  cbn [lookup]. assert (k < s) by (apply (H k t); now left).
+  destruct (Nat.leb_spec k e); [|lia]. destruct (Nat.leb_spec k e'); [|lia].
+  apply (IH s); [|exact He|exact He']. intros k' t' Hin. apply (H k' t'). now right.
+Qed.
+Lemma lookup_id_zero : forall idx e, (exists a, In (0, a) idx) ->
+  lookup_id idx e = lookup idx e None /\ exists y, lookup_id idx e = Some y.
+Proof.
+  intros idx e [a Ha]. unfold lookup_id.
+  destruct (lookup_some idx e None) as [y Hy]; [exists 0, a; split; [exact Ha|lia]|].
+  rewrite Hy. split; [reflexivity|now exists y].
+Qed.
+
+(** Identify returns (neither loop spins, no nil taxon) as soon as every best match has an index with
+    an entry for distance 0 and there is at least one best match *)
+Lemma fold_lca_total : forall (lca : nat -> nat -> nat) ts a, exists t, fold_lca (fun a b => Some (lca a b)) ts (Some a) = Some t.
+Proof. intros lca. induction ts as [|t0 r IH]; intros a; [now exists a|]. cbn [fold_lca]. apply IH. Qed.
+Lemma all_some_total : forall (A B : Type) (f : A -> option B) l, (forall x, In x l -> exists y, f x = Some y) ->
+  exists ys, all_some (map f l) = Some ys /\ length ys = length l.
+Proof.
+  induction l as [|a r IH]; intros H; [now exists []|].
+  destruct (H a (or_introl eq_refl)) as [y Ey]. destruct IH as [ys [E L]]; [intros x Hx; apply H; now right|].
+  exists (y :: ys). cbn [map all_some]. rewrite Ey, E. split; [reflexivity|cbn; now rewrite L].
+Qed.
+Theorem identify_total : forall (lca : nat -> nat -> nat) (indices : nat -> list (nat * nat)) st,
+  s_bests st <> [] -> (forall b, In b (s_bests st) -> exists a, In (0, a) (indices b)) ->
+  exists t, identify (fun a b => Some (lca a b)) indices st = Some t.
+Proof.
+  intros lca indices st NE H. unfold identify.
+  destruct (s_maxe st) as [d|]; [|now exists 1].
+  destruct (s_bali st <=? 2 * s_blcs st); [|now exists 1].
+  destruct (all_some_total _ _ (fun b => option_map snd (lookup_id (indices b) d)) (s_bests st)) as [ts [E L]].
+  { intros b Hb. destruct (lookup_id_zero (indices b) d (H b Hb)) as [_ [[k t] Hy]]. rewrite Hy. now exists t. }
+  rewrite E. destruct ts as [|t0 r]; [destruct (s_bests st); [contradiction|discriminate]|].
+  cbn [fold_lca]. apply fold_lca_total.
+Qed.
+
+(** the observation "no recorded distance >= |reference|", exactly: gccg (taxon 4, path 1-3-4) indexed in the
+    database {gccg:4, gctcg:3 (distance 1), gccggaca:2 (distance 4), gccggagtt:2 (distance 5)}: the index is
+    {1 -> 3, 0 -> 4}; a query at distance 4 = |gccg| is answered 3 although the reference gccggaca, whose LCA
+    with gccg is the root, is within 4 *)
+Definition wbcs : list icand := [mkicand 1 1 8 4; mkicand 1 1 9 5; mkicand 4 1 4 0; mkicand 3 0 5 1].
+Lemma lookup_beyond_length_witness :
+  iby_decreasing_cw wbcs /\ iqgram_ok 4 wbcs /\
+  index_ref thr_fixed 4 [1; 3; 4] wbcs = [(1, 3); (0, 4)] /\
+  lookup_id (index_ref thr_fixed 4 [1; 3; 4] wbcs) 4 = Some (1, 3) /\
+  (exists c, In c wbcs /\ i_d c <= 4 /\ i_lca c = 1).
+Proof.
+  split; [repeat constructor|]. split.
+  - intros c Hc. cbn in Hc. repeat (destruct Hc as [<-|Hc]; [cbn; lia|]). destruct Hc.
+  - split; [vm_compute; reflexivity|]. split; [vm_compute; reflexivity|].
+    exists (mkicand 1 1 8 4). split; [now left|]. split; cbn; lia.
+Qed.
+
+(** * round 2 — sequence-level theorems over the candidates AS THE CODE COMPUTES THEM (wrapped cells) *)
+Lemma cands_of_exact : forall q refs qd order, cells_exact q -> Forall cells_exact refs ->
+  cands_of q refs qd order = cands_of_with common4 q refs qd order.
+Proof.
+  intros q refs qd order Hq Hr. unfold cands_of, cands_of_with. apply map_ext. intros i. cbv zeta.
+  rewrite common4w_exact; [reflexivity|exact Hq|].
+  destruct (nth_in_or_default i refs []) as [Hin|E]; [rewrite Forall_forall in Hr; now apply Hr|rewrite E; apply cells_exact_nil].
+Qed.
+
+Theorem search_lossless_seq :
+  forall kernel : list N -> list N -> nat * nat,
+  (forall q r, acgt_only q -> acgt_only r -> edits (kdist kernel q r) q r) ->
+  forall q refs order,
+    acgt_only q -> Forall acgt_only refs -> refs <> [] ->
+    cells_exact q -> Forall cells_exact refs ->
+    Permutation order (seq 0 (length refs)) ->
+    by_decreasing_cw (cands_of q refs (map (kernel q) refs) order) ->
+    let st := find_closests thr_fixed (length q) (cands_of q refs (map (kernel q) refs) order) in
+    exists m, s_maxe st = Some m /\
+      (forall i, i < length refs -> m <= kdist kernel q (nth i refs [])) /\
+      (forall i, In i (s_bests st) <-> i < length refs /\ kdist kernel q (nth i refs []) = m) /\
+      s_bests st <> [].
+Proof.
+  intros kernel KE q refs order Hq Hr NE Gq Gr P S. rewrite cands_of_exact in S |- * by assumption.
+  now apply search_lossless_seq_x.
+Qed.
+
+Theorem assignment_sound :
+  forall kernel : list N -> list N -> nat * nat,
+  (forall q r, acgt_only q -> acgt_only r -> edits (kdist kernel q r) q r) ->
+  forall (anc : nat -> nat -> Prop) (lca : nat -> nat -> nat),
+  (forall a, anc a a) -> (forall a b c, anc a b -> anc b c -> anc a c) ->
+  (forall x a b, anc x (lca a b) <-> anc x a /\ anc x b) -> (forall x, anc 1 x) ->
+  forall q refs order (tax : nat -> nat) (indices : nat -> list (nat * nat)) t,
+    acgt_only q -> Forall acgt_only refs -> refs <> [] ->
+    cells_exact q -> Forall cells_exact refs ->
+    Permutation order (seq 0 (length refs)) ->
+    by_decreasing_cw (cands_of q refs (map (kernel q) refs) order) ->
+    (forall b, b < length refs -> forall d a, In (d, a) (indices b) -> anc a (tax b)) ->
+    identify (fun a b => Some (lca a b)) indices
+             (find_closests thr_fixed (length q) (cands_of q refs (map (kernel q) refs) order)) = Some t ->
+    forall i, i < length refs ->
+      (forall j, j < length refs -> kdist kernel q (nth i refs []) <= kdist kernel q (nth j refs [])) ->
+      anc t (tax i).
+Proof.
+  intros kernel KE anc lca Ar At Ag Root q refs order tax indices t Hq Hr NE Gq Gr P S Hidx Hid.
+  rewrite cands_of_exact in S, Hid by assumption.
+  exact (assignment_sound_x kernel KE anc lca Ar At Ag Root q refs order tax indices t Hq Hr NE P S Hidx Hid).
+Qed.
+
+Theorem threshold_sound_w :
+  forall kernel : list N -> list N -> nat * nat,
+  (forall q r, acgt_only q -> acgt_only r -> edits (kdist kernel q r) q r) ->
+  forall q r, acgt_only q -> acgt_only r -> cells_exact q -> cells_exact r ->
+    thr_fixed (length q) (length r) (kdist kernel q r) <= common4w q r.
+Proof.
+  intros kernel KE q r Hq Hr Gq Gr. rewrite common4w_exact by assumption. now apply (threshold_sound kernel KE).
+Qed.
+
+(** * whatever the counts and the threshold: the answer of the scan is the exact answer over a non-empty
+      PREFIX of the candidate order (reported distances are real, the reported best set is complete
+      within the prefix; only candidates after the break can be lost) *)
+Lemma fscan_prefix : forall thr qlen cs pre0 st, repr pre0 st ->
+  exists pre post, cs = pre ++ post /\ repr (pre0 ++ pre) (fscan thr qlen cs st) /\
+    (cs <> [] -> s_wordmin st = 0 -> pre <> []).
+Proof.
+  intros thr qlen. induction cs as [|c r IH]; intros pre0 st H.
+  - exists [], []. split; [reflexivity|]. split; [now rewrite app_nil_r|intros NE; contradiction].
+  - cbn [fscan]. destruct (Nat.ltb_spec (c_cw c) (s_wordmin st)) as [L|L].
+    + exists [], (c :: r). split; [reflexivity|]. split; [now rewrite app_nil_r|]. intros _ W. lia.
+    + destruct (IH (pre0 ++ [c]) (fstep thr qlen c st) (fstep_repr thr qlen pre0 c st H)) as [pre [post [E [R _]]]].
+      exists (c :: pre), post. split; [now rewrite E|]. split; [|discriminate].
+      now rewrite <- app_assoc in R.
+Qed.
+Theorem search_prefix_exact : forall thr qlen cs, cs <> [] ->
+  exists pre post, cs = pre ++ post /\ pre <> [] /\
+    s_maxe (find_closests thr qlen cs) = minl pre /\ s_bests (find_closests thr qlen cs) = best_set pre.
+Proof.
+  intros thr qlen cs NE. unfold find_closests.
+  destruct (fscan_prefix thr qlen cs [] (finit match cs with c :: _ => c_idx c | [] => 0 end)) as [pre [post [E [[R1 R2] Hne]]]];
+    [split; reflexivity|].
+  exists pre, post. split; [exact E|]. split; [apply Hne; [exact NE|reflexivity]|]. split; assumption.
+Qed.
+
+(** * IUPAC codes: the kernel counts a column (a, b) of two DIFFERENT but compatible symbols as a match; the
+      4-mer code does not. Each such column costs at most four shared 4-mers, like an edit. *)
+Fixpoint al_amb (compat : N -> N -> bool) (al : list col) : nat :=
+  match al with
+  | [] => 0
+  | CSub a b :: r => if compat a b then S (al_amb compat r) else al_amb compat r
+  | _ :: r => al_amb compat r
+  end.
+Lemma al_amb_le : forall compat al, al_lcs al + al_amb compat al <= length al.
+Proof.
+  intros compat. induction al as [|[a|a b|b|a] r IH]; cbn [al_lcs al_amb length]; try lia.
+  destruct (compat a b); lia.
+Qed.
+(** kernel's view of the alignment: lcs = equal columns + compatible columns, distance = the rest *)
+Definition al_klcs compat al := al_lcs al + al_amb compat al.
+Theorem iupac_bound : forall compat al,
+  Nat.max (length (al_left al)) (length (al_right al)) - 3 - 4 * ((length al - al_klcs compat al) + al_amb compat al)
+  <= common4 (al_left al) (al_right al).
+Proof.
+  intros compat al. pose proof (qgram_bound _ _ _ (alignment_edits al)) as B.
+  pose proof (al_amb_le compat al). unfold al_klcs.
+  replace (length al - (al_lcs al + al_amb compat al) + al_amb compat al) with (length al - al_lcs al) by lia.
+  exact B.
+Qed.
+(** and the bound without the ambiguity term fails: acgtnacgt / acgtcacgt, kernel distance 0 (n matches c),
+    2 shared 4-mers instead of 6 *)
+Definition wamb : list col :=
+  [CMatch 97; CMatch 99; CMatch 103; CMatch 116; CSub 110 99; CMatch 97; CMatch 99; CMatch 103; CMatch 116]%N.
+Lemma iupac_refuted : let compat := fun a b : N => (a =? 110)%N || (b =? 110)%N || (a =? b)%N in
+  length wamb - al_klcs compat wamb = 0 /\ al_amb compat wamb = 1 /\
+  common4 (al_left wamb) (al_right wamb) = 2 /\
+  ~ (Nat.max (length (al_left wamb)) (length (al_right wamb)) - 3 - 4 * (length wamb - al_klcs compat wamb)
+     <= common4 (al_left wamb) (al_right wamb)).
+Proof. cbv zeta. split; [reflexivity|]. split; [reflexivity|]. split; [vm_compute; reflexivity|]. vm_compute. lia. Qed.
+
+(** * the lookup of Identify for EVERY observed distance *)
+Theorem index_lookup_all_distances :
+  forall (anc : nat -> nat -> Prop) (lca : nat -> nat -> nat),
+  (forall a, anc a a) -> (forall a b c, anc a b -> anc b c -> anc a c) ->
+  (forall x a b, anc x (lca a b) <-> anc x a /\ anc x b) ->
+  forall slen tseq pseq rs,
+    path_chain anc pseq -> (forall r, In r rs -> In (lca tseq (r_tax r)) pseq) ->
+    (exists r, In r rs /\ r_tax r = tseq /\ r_d r = 0) ->
+    iby_decreasing_cw (icands lca tseq rs) -> iqgram_ok slen (icands lca tseq rs) -> 0 < slen ->
+    forall e, exists k a,
+      lookup_id (index_ref thr_fixed slen pseq (icands lca tseq rs)) e = Some (k, a) /\
+      k <= e /\ k < slen /\ In a pseq /\
+      is_lca_of anc a (map r_tax (filter (fun r => r_d r <=? Nat.min e (slen - 1)) rs)).
+Proof.
+  intros anc lca Ar At Ag slen tseq pseq rs CH ON Self S Q Hs e.
+  set (idx := index_ref thr_fixed slen pseq (icands lca tseq rs)).
+  assert (Z : exists a, In (0, a) idx).
+  { destruct Self as [r0 [H0 [T0 D0]]]. apply index_ref_zero; try assumption.
+    exists (mkicand (lca tseq (r_tax r0)) (r_cw r0) (r_len r0) (r_d r0)). split.
+    - unfold icands. apply in_map_iff. exists r0. now split.
+    - cbn [i_d i_lca]. split; [exact D0|now apply ON]. }
+  destruct (lookup_id_zero idx e Z) as [E [[k a] Hy]]. exists k, a. split; [exact Hy|].
+  rewrite E in Hy.
+  assert (Keys : forall k' t', In (k', t') idx -> k' < slen).
+  { intros k' t' Hin. now destruct (index_ref_spec slen pseq _ S Q k' t' Hin). }
+  assert (Kk : k < slen).
+  { apply lookup_in in Hy. destruct Hy as [Hy|Hy]; [exact (Keys _ _ Hy)|discriminate]. }
+  destruct (Nat.lt_ge_cases e slen) as [Lt|Ge].
+  - rewrite Nat.min_l by lia.
+    destruct (index_lookup_is_lca anc lca Ar At Ag slen tseq pseq rs CH ON Self S Q e k a Lt Hy) as [A [B C]].
+    repeat split; assumption || apply C.
+  - rewrite Nat.min_r by lia.
+    rewrite (lookup_saturate idx slen e (slen - 1) None Keys) in Hy by lia.
+    destruct (index_lookup_is_lca anc lca Ar At Ag slen tseq pseq rs CH ON Self S Q (slen - 1) k a) as [A [B C]]; [lia|exact Hy|].
+    split; [lia|]. split; [exact Kk|]. split; [exact B|exact C].
+Qed.
+
+(** * round 2 — the regenerated base-code table; obitag2 at its cap of 1001 candidates *)
+Lemma base_code_nonzero_check :
+  forallb (fun i => (nth i base_code_tab 0 =? 0)%N || existsb (N.eqb (N.of_nat i)) [3; 7; 20; 21]%N) (seq 0 32) = true.
+Proof. vm_compute. reflexivity. Qed.
+Lemma base_code_nonzero : forall b, base_code b <> 0%N -> In (N.land b 31) [3; 7; 20; 21]%N.
+Proof.
+  intros b H. unfold base_code in H. set (i := N.land b 31) in *.
+  assert (Hi : (i < 32)%N).
+  { unfold i. change 31%N with (N.ones 5). rewrite N.land_ones. apply N.mod_lt. discriminate. }
+  pose proof base_code_nonzero_check as F. rewrite forallb_forall in F.
+  specialize (F (N.to_nat i)). rewrite N2Nat.id in F.
+  assert (Hin : In (N.to_nat i) (seq 0 32)) by (apply in_seq; lia).
+  apply F in Hin. apply orb_prop in Hin. destruct Hin as [Hz|He].
+  - apply N.eqb_eq in Hz. contradiction.
+  - apply existsb_exists in He. destruct He as [x [Hx Ex]]. apply N.eqb_eq in Ex. now subst x.
+Qed.
+Lemma base_code_table :
+  length base_code_tab = 32 /\
+  map base_code [97; 99; 103; 116; 117; 65; 67; 71; 84; 85]%N = [0; 1; 2; 3; 3; 0; 1; 2; 3; 3]%N /\
+  (forall b, (base_code b <= 3)%N) /\
+  (forall b, base_code b <> 0%N -> In (N.land b 31) [3; 7; 20; 21]%N).
+Proof.
+  split; [exact base_code_tab_length|]. split; [vm_compute; reflexivity|].
+  split; [exact base_code_le3|exact base_code_nonzero].
+Qed.
+Theorem search2_sharp :
+  forall qlen cs, cs <> [] -> by_decreasing_cw cs -> qgram_ok qlen cs ->
+  forall m, (forall c, In c cs -> m <= c_d c) -> (exists c, In c cs /\ c_d c = m) ->
+  (s_maxe (find_closests2 thr_fixed qlen cs) = Some m /\
+   s_bests (find_closests2 thr_fixed qlen cs) = map c_idx (filter (fun c => c_d c =? m) cs))
+  <-> (forall c, In c (skipn 1001 cs) -> c_d c <> m).
+Proof. intros qlen cs. apply (search_cap_sharp 1001 qlen cs). lia. Qed.
+
+(** * round 2 — obitag2 tests byte equality (not D1Or0) when the best distance is 0 *)
+Lemma fstep2_fstep : forall eqf thr qlen c st, eqf (c_idx c) = (c_d c =? 0) ->
+  fstep2 eqf thr qlen c st = fstep thr qlen c st.
+Proof.
+  intros eqf thr qlen c st H. unfold fstep2, fstep, kern2.
+  destruct (s_maxe st) as [[|m]|] eqn:E; try reflexivity.
+  rewrite H. unfold kern. cbn [Nat.leb].
+  destruct (c_d c) as [|[|d]] eqn:D; cbn [Nat.eqb Nat.leb]; try reflexivity.
+  unfold fstep_core. rewrite E. cbn [Nat.ltb Nat.leb]. rewrite E. reflexivity.
+Qed.
+Lemma fscan2_fscan : forall eqf thr qlen cs st, (forall c, In c cs -> eqf (c_idx c) = (c_d c =? 0)) ->
+  fscan2 eqf thr qlen cs st = fscan thr qlen cs st.
+Proof.
+  intros eqf thr qlen. induction cs as [|c r IH]; intros st H; [reflexivity|].
+  cbn [fscan2 fscan]. destruct (c_cw c <? s_wordmin st); [reflexivity|].
+  rewrite fstep2_fstep by (apply H; now left). apply IH. intros c' Hc'. apply H. now right.
+Qed.
+Theorem find_closests2x_eq : forall eqf thr qlen cs, (forall c, In c cs -> eqf (c_idx c) = (c_d c =? 0)) ->
+  find_closests2x eqf thr qlen cs = find_closests2 thr qlen cs.
+Proof.
+  intros eqf thr qlen cs H. unfold find_closests2x, find_closests2, find_closests_cap, find_closests. cbv zeta.
+  apply fscan2_fscan. intros c Hc. apply H. rewrite <- (firstn_skipn 1001 cs). apply in_or_app. now left.
+Qed.
+Theorem search2x_sharp :
+  forall eqf qlen cs, (forall c, In c cs -> eqf (c_idx c) = (c_d c =? 0)) ->
+  cs <> [] -> by_decreasing_cw cs -> qgram_ok qlen cs ->
+  forall m, (forall c, In c cs -> m <= c_d c) -> (exists c, In c cs /\ c_d c = m) ->
+  (s_maxe (find_closests2x eqf thr_fixed qlen cs) = Some m /\
+   s_bests (find_closests2x eqf thr_fixed qlen cs) = map c_idx (filter (fun c => c_d c =? m) cs))
+  <-> (forall c, In c (skipn 1001 cs) -> c_d c <> m).
+Proof. intros eqf qlen cs H. rewrite (find_closests2x_eq eqf thr_fixed qlen cs H). apply search2_sharp. Qed.
+(** with IUPAC codes byte equality is stricter than the kernel: query acgn, references acgt and acgn, both at kernel
+    distance 0: obitag returns both, obitag2 (identical reference scanned first) only the identical one *)
+Definition w2cs : list cand := [mkcand 1 1 4 4 4; mkcand 0 1 4 4 4].
+Lemma search2x_iupac_fewer_ties :
+  s_bests (find_closests thr_fixed 4 w2cs) = [1; 0] /\
+  s_bests (find_closests2x (fun i => i =? 1) thr_fixed 4 w2cs) = [1].
+Proof. split; vm_compute; reflexivity. Qed.
+
+(** when can the observed distance reach the length of a best match although Identify assigns (identity >= 0.5)?
+    only at identity exactly 0.5, the whole reference being matched *)
+Lemma beyond_length_only_at_half : forall lcs ali blen,
+  lcs <= blen -> blen <= ali - lcs -> ali <= 2 * lcs -> ali = 2 * lcs /\ lcs = blen /\ ali - lcs = blen.
+Proof. intros. lia. Qed.
+
+(** the per-sequence tables used by the correspondence give the same shared counts *)
+Lemma common_tab_sumkN : forall f g n, common_tab (tab f n) (tab g n) = sumkN (fun k => N.min (f k) (g k)) n.
+Proof. intros f g. induction n as [|n IH]; [reflexivity|]. cbn [tab common_tab sumkN]. now rewrite IH. Qed.
+Lemma table_common4w : forall s t, commonw_tab (table4 s) (table4 t) = common4w s t.
+Proof. intros s t. unfold commonw_tab, table4, common4w, commonw. cbv zeta. now rewrite common_tab_sumkN. Qed.
